@@ -3,10 +3,12 @@
 package handler
 
 // C02 (call sites): drives the real SheddingHandler with a recording shedder.
-//   ops:  req allow=<0/1> code=<status the next handler writes, 0 = writes nothing> panic=<0/1>
+//   ops:  req allow=<0/1> code=<status the next handler writes, 0 = writes nothing> panic=<how the handler ends>
+//             panic: 0 returns | 1 panic("verif") | err panic(errors.New) | abort panic(http.ErrAbortHandler) | nilpanic panic(nil)
+//                    | goexit runtime.Goexit()   (every request runs on a goroutine of its own)
 //             [body=<0/1> the handler writes a body] [again=<second WriteHeader code, 0 = none>] [nilshed=<0/1> SheddingHandler(nil, …)]
 //             [pre=<status the incoming writer already carries: it is a *WithCodeResponseWriter of an outer middleware>]
-//   obs:  status=<n> ran=<0/1> early=<promise resolutions seen while the next handler ran> pass=<n> fail=<n>
+//   obs:  status=<n> ran=<0/1> fwd=<1: the next handler received the very *http.Request> early=<promise resolutions seen while the next handler ran> pass=<n> fail=<n>
 //         allows=<n> st=<total>/<pass>/<drop>  (deltas of the package's SheddingStat; "reset" if its reporter zeroed it meanwhile)
 //   ops:  real depth=<1..4> code= panic= [again=] [pre=]   the REAL adaptive shedder of the section (state kept between
 //             requests) behind SheddingHandler; the handler re-enters the wrapped handler depth-1 times with the writer it
@@ -14,11 +16,13 @@ package handler
 //   obs:  ran=<n> peak=<flying seen by the innermost handler> flying=<after> avg=<n/d after> st=
 
 import (
+	"errors"
 	"fmt"
 	"math/big"
 	"net/http"
 	"net/http/httptest"
 	"reflect"
+	"runtime"
 	"strings"
 	"testing"
 
@@ -54,20 +58,50 @@ func (s *c02Shedder) Allow() (load.Promise, error) {
 	return c02Promise{s}, nil
 }
 
+var c02EndKinds = []string{"1", "1", "err", "abort", "nilpanic", "goexit", "goexit"}
+
+// c02End ends the wrapped handler the way the op says (does not return unless kind is "0" / "").
+func c02End(kind string) {
+	switch kind {
+	case "", "0":
+	case "err":
+		panic(errors.New("verif"))
+	case "abort":
+		panic(http.ErrAbortHandler)
+	case "nilpanic":
+		panic(nil)
+	case "goexit":
+		runtime.Goexit()
+	default:
+		panic("verif")
+	}
+}
+
+// c02Call runs f on a goroutine of its own and waits until it has ended (return, panic or Goexit).
+func c02Call(f func()) {
+	done := make(chan struct{})
+	go func() {
+		defer close(done)
+		defer func() { recover() }()
+		f()
+	}()
+	<-done
+}
+
 func c02hGen(r *verifh.Rng) []verifh.Section {
 	var secs []verifh.Section
-	for i := 0; i < verifh.Scale(12, 60); i++ {
+	for i := 0; i < verifh.Scale(18, 60); i++ {
 		var ops []string
 		for j := 0; j < r.Range(4, 20); j++ {
 			allow := 1
 			if r.Chance(1, 4) {
 				allow = 0
 			}
-			pn := 0
-			if r.Chance(1, 5) {
-				pn = 1
+			pn := "0"
+			if r.Chance(1, 4) {
+				pn = c02EndKinds[r.Intn(len(c02EndKinds))]
 			}
-			op := fmt.Sprintf("req allow=%d code=%d panic=%d", allow, r.Pick(0, 200, 201, 404, 500, 502, 503, 503, 504), pn)
+			op := fmt.Sprintf("req allow=%d code=%d panic=%s", allow, r.Pick(0, 200, 201, 404, 500, 502, 503, 503, 504), pn)
 			switch r.Intn(8) {
 			case 0:
 				op += " body=1"
@@ -88,11 +122,11 @@ func c02hGen(r *verifh.Rng) []verifh.Section {
 	for i := 0; i < verifh.Scale(8, 40); i++ {
 		var ops []string
 		for j := 0; j < r.Range(6, 30); j++ {
-			pn := 0
+			pn := "0"
 			if r.Chance(1, 3) {
-				pn = 1
+				pn = c02EndKinds[r.Intn(len(c02EndKinds))]
 			}
-			op := fmt.Sprintf("real depth=%d code=%d panic=%d", r.Pick(1, 1, 2, 3, 4), r.Pick(0, 200, 404, 500, 503, 503), pn)
+			op := fmt.Sprintf("real depth=%d code=%d panic=%s", r.Pick(1, 1, 2, 3, 4), r.Pick(0, 200, 404, 500, 503, 503), pn)
 			switch r.Intn(6) {
 			case 0:
 				op += fmt.Sprintf(" again=%d", r.Pick(200, 503))
@@ -158,9 +192,7 @@ func TestVerifC02H(t *testing.T) {
 					if again != 0 {
 						w.WriteHeader(again)
 					}
-					if kv["panic"] == "1" {
-						panic("verif")
-					}
+					c02End(kv["panic"])
 				})
 				h = SheddingHandler(real, metrics)(next)
 				before := c02Stat()
@@ -170,10 +202,9 @@ func TestVerifC02H(t *testing.T) {
 					cw.Code = verifh.Atoi(kv["pre"])
 					w = cw
 				}
-				func() {
-					defer func() { recover() }()
+				c02Call(func() {
 					h.ServeHTTP(w, httptest.NewRequest(http.MethodGet, "http://localhost/x", http.NoBody))
-				}()
+				})
 				after := c02Stat()
 				st := fmt.Sprintf("%d/%d/%d", after[0]-before[0], after[1]-before[1], after[2]-before[2])
 				if after[0] < before[0] || after[1] < before[1] || after[2] < before[2] {
@@ -191,9 +222,13 @@ func TestVerifC02H(t *testing.T) {
 			if kv["again"] != "" {
 				again = verifh.Atoi(kv["again"])
 			}
-			ran, early := 0, 0
+			ran, early, fwd := 0, 0, 0
+			req := httptest.NewRequest(http.MethodGet, "http://localhost/x", http.NoBody)
 			next := http.HandlerFunc(func(w http.ResponseWriter, r *http.Request) {
 				ran = 1
+				if r == req {
+					fwd = 1
+				}
 				early = sh.pass + sh.fail
 				if code != 0 {
 					w.WriteHeader(code)
@@ -205,9 +240,7 @@ func TestVerifC02H(t *testing.T) {
 					w.WriteHeader(again)
 				}
 				early += sh.pass + sh.fail
-				if kv["panic"] == "1" {
-					panic("verif")
-				}
+				c02End(kv["panic"])
 			})
 			var h http.Handler
 			if kv["nilshed"] == "1" {
@@ -223,16 +256,13 @@ func TestVerifC02H(t *testing.T) {
 				cw.Code = verifh.Atoi(kv["pre"])
 				w = cw
 			}
-			func() {
-				defer func() { recover() }()
-				h.ServeHTTP(w, httptest.NewRequest(http.MethodGet, "http://localhost/x", http.NoBody))
-			}()
+			c02Call(func() { h.ServeHTTP(w, req) })
 			after := c02Stat()
 			st := fmt.Sprintf("%d/%d/%d", after[0]-before[0], after[1]-before[1], after[2]-before[2])
 			if after[0] < before[0] || after[1] < before[1] || after[2] < before[2] {
 				st = "reset"
 			}
-			return fmt.Sprintf("status=%d ran=%d early=%d pass=%d fail=%d allows=%d st=%s", rec.Code, ran, early, sh.pass, sh.fail, sh.allows, st)
+			return fmt.Sprintf("status=%d ran=%d fwd=%d early=%d pass=%d fail=%d allows=%d st=%s", rec.Code, ran, fwd, early, sh.pass, sh.fail, sh.allows, st)
 		}
 		return step, nil
 	})
